@@ -15,7 +15,7 @@ RULE = (
     "Hypothesis draws a reference point with |lat| <= 60 and any longitude in [-180, 180], an offset distance 1 m .. 5 km "
     "(log-uniform) and a bearing in [0, 360) (plus the four cardinal directions); the target lat/lon is produced with the "
     "spherical destination formula (longitude not wrapped). Oracles: xy_to_latlon(latlon_to_xy(p)) == p to 1e-9 deg and "
-    "latlon_to_xy(xy_to_latlon(x,y)) == (x,y) to 1e-6 m, for scalars and for arrays; the reference maps to (0,0); east => x>0, "
+    "latlon_to_xy(xy_to_latlon(x,y)) == (x,y) to 1e-6 m, for scalars, for 1-D and 2-D arrays and for mixed scalar/array and open-grid calls (results must broadcast to the element-wise ones); the reference maps to (0,0); east => x>0, "
     "north => y>0, with the orthogonal component small; hypot(x,y) within 0.1 % of the haversine distance and atan2(x,y) within "
     "0.1 deg of the initial great-circle bearing; TowerConfig.x,y after parse_config_dict equal the forward transform. "
     "Non-trivial = offset >= 10 m and bearing not a multiple of 90; distinct = canonical JSON."
@@ -83,6 +83,28 @@ def check_case(case):
         la2t, lo2t = xy_to_latlon(x2t, y2t, rl, ro)
         if np.shape(la2t) != x2t.shape or not (np.array_equal(la2t, np.asarray(la2d).T) and np.array_equal(lo2t, np.asarray(lo2d).T)):
             out.bad("xy_to_latlon on the transposed 2-D arrays is not the transposed result")
+    # mixed forms ("scalars or arrays"): a transect at a fixed easting / northing, and an open grid.  Whatever
+    # shapes come back must broadcast to the broadcast shape of the inputs and equal the element-wise results.
+    if len(pts) >= 2:
+        la_e, lo_e = xy_to_latlon(xs0.copy(), ys0.copy(), rl, ro)
+        forms = [("scalar x, array y", float(xs0[0]), ys0.copy(), np.asarray(la_e), np.full(len(pts), lo_e[0])),
+                 ("array x, scalar y", xs0.copy(), float(ys0[0]), np.full(len(pts), la_e[0]), np.asarray(lo_e)),
+                 ("x[None, :], y[:, None]", xs0.copy()[None, :], ys0.copy()[:, None],
+                  np.broadcast_to(np.asarray(la_e)[:, None], (len(pts), len(pts))),
+                  np.broadcast_to(np.asarray(lo_e)[None, :], (len(pts), len(pts))))]
+        for name, fx, fy, la_want, lo_want in forms:
+            la_m, lo_m = xy_to_latlon(fx, fy, rl, ro)
+            try:
+                la_b = np.broadcast_to(np.asarray(la_m, dtype=float), la_want.shape)
+                lo_b = np.broadcast_to(np.asarray(lo_m, dtype=float), lo_want.shape)
+            except ValueError:
+                out.bad(f"xy_to_latlon({name}) returns shapes {np.shape(la_m)}, {np.shape(lo_m)} that do not describe the "
+                        f"{la_want.shape} points of the call")
+                continue
+            if not (np.allclose(la_b, la_want, rtol=0, atol=1e-12) and np.allclose(lo_b, lo_want, rtol=0, atol=1e-12)):
+                out.bad(f"xy_to_latlon({name}) differs from the element-wise result: lat {np.ravel(la_b)[:6]} vs "
+                        f"{np.ravel(la_want)[:6]}, lon {np.ravel(lo_b)[:6]} vs {np.ravel(lo_want)[:6]}")
+        out.label("mixed-scalar-array-forms")
     same = np.array([p[0] for p in pts])
     la2, lo2 = xy_to_latlon(same, same, rl, ro)  # one array for both coordinates
     la3, lo3 = xy_to_latlon(same.copy(), same.copy(), rl, ro)
